@@ -63,11 +63,18 @@ def main():
     types = [x for x in we.group_types(cases + cases2) if shape_varying(x[0]) and not we.cpp_unbuildable(x[0])
              and len(x[1]) >= 2 and sum(1 for q in x[1] if q["jsonable"]) >= 2]
     c.rng.shuffle(types)
+    # records whose fields can be absent / null only by way of an alias or (in the generic spelling) of a type argument: readers that
+    # reuse the destination must reset such a field when an item does not carry it
+    import re as _re
+    nullable_by_name = [x for x in types if x[0]["k"] == "rec" and _re.search(r"alias\((alias\()?(opt|union\(null)", we.type_class(x[0]))]
     if not thorough:
         fixed = [x for x in types if x[0]["k"] in ("prim", "farr", "fvec")]
-        types = fixed[:24] + [x for x in types if x not in fixed][:72]
-        c.rng.shuffle(types)
+        first = nullable_by_name[:12]
+        types = first + fixed[:24] + [x for x in types if x not in fixed and x not in first][:60]
+    c.cov["records_nullable_through_alias"] = len(nullable_by_name if thorough else nullable_by_name[:12])
     pkgs = [StreamPackage(i, types[j:j + 16], sc) for i, j in enumerate(range(0, len(types), 16))]
+    for p in pkgs:      # records also spelled as instances of generic records (a nullable field type becomes a type argument)
+        p.style = {"generics": ["none", "local", "none"][p.idx % 3], "optional": "question"}
 
     def prep(p):
         if not p.generate(yardl, home):
